@@ -155,6 +155,11 @@ func recoverImage(cfg hapi.Config, im vos.Image, at int64, second bool) recovere
 		vrt.Quiesce()
 		c.Do(withEF(hapi.Cmd{Type: 1, Req: 251, Key: 9, Id: 9, Expried: 70, Rcount: 1}, efZeroAof).Build())
 		vrt.Quiesce()
+		// ... and two holds that carry values (the value file is appended to as well)
+		c.Do(withEF(hapi.Cmd{Type: 1, Req: 252, Key: 10, Id: 10, Expried: 70, Data: protocol.NewLockCommandDataSetString("second-phase-value").Data}, efZeroAof).Build())
+		vrt.Quiesce()
+		c.Do(withEF(hapi.Cmd{Type: 1, Req: 253, Key: 11, Id: 11, Expried: 70, Data: protocol.NewLockCommandDataSetString("v").Data}, efZeroAof).Build())
+		vrt.Quiesce()
 		vrt.AdvanceTo(vrt.Elapsed() + 250*ms)
 		node.Poke("flushaof")
 		vrt.Quiesce()
@@ -237,6 +242,27 @@ func valueMissing(im vos.Image) bool {
 		}
 	}
 	return false
+}
+
+// valueSurplus reports whether the newest value file holds more bytes than the value-carrying records of its log
+// account for (the log lost records whose values reached the disk).
+func valueSurplus(im vos.Image) bool {
+	na := newestAppend(im)
+	if na == "" {
+		return false
+	}
+	a, d := im[na], im[na+".dat"]
+	need := 0
+	for off := 12; off+64 <= len(a); off += 64 {
+		flag := uint16(a[off+55]) | uint16(a[off+56])<<8
+		if flag&0x2000 != 0 {
+			if need+4 > len(d) {
+				return false
+			}
+			need += 4 + int(uint32(d[need])|uint32(d[need+1])<<8|uint32(d[need+2])<<16|uint32(d[need+3])<<24)
+		}
+	}
+	return need < len(d)
 }
 
 func newestAppend(im vos.Image) string {
@@ -489,6 +515,8 @@ func evalC08(c *Ctx, cs EnumCase) EnumResult {
 				sig += "/value-file-cut"
 			} else if strings.Contains(what, "crash right after") && valueMissing(im) {
 				sig += "/value-file-cut"
+			} else if valueSurplus(im) {
+				sig += "/value-file-longer-than-log"
 			}
 			vs = append(vs, explore.Violation{Sig: sig, Msg: what + ": " + r.Second})
 		}
